@@ -39,6 +39,9 @@ func judge(impl float64, r Ref, s Sens, extra, floor float64) verdict {
 		if nan || (math.Abs(impl) >= 1e300 && math.Signbit(impl) == r.Neg) {
 			return verdict{ok: true, class: "overflow:" + classOf(impl)}
 		}
+		if math.Abs(impl) >= 1e300 {
+			return verdict{kind: "overflow-with-wrong-sign", class: "bad"}
+		}
 		return verdict{kind: "finite-where-overflow", class: "bad"}
 	case 'u':
 		if !nan && math.Abs(impl) <= 1e-280 {
